@@ -12,7 +12,7 @@ PARTIAL = {
     "C11": "independence (no shared storage) cannot be expressed over immutable model values: tie only (mutation probing); equality proved on `fullTy`",
     "C12": "fixpoint proved for the untyped chain; typed leg proved on fullTy incl. tagged entries (token level and CBOR; with tags under TagsOk/TagStab); JSON typed leg only for float-free typed targets",
     "C15": "none in the model since C15Prog (decoder models = programs over the reader operations); real decoders vs schedules: tie",
-    "C17": "codec instances: proved for every history (C17Reuse); object MARSHALLER: a stateful model with the code's structure refines the functional model from every dirty state (C17ObjMarshal, NoClash atlases); object UNMARSHALLER: likewise for every target built from primitives, pointers, slices, arrays, maps, struct maps, untyped slots and transforms (C17ObjUnmarshalFull, FragTarget) - NOT for keyed unions and atlas-resolved tags, where the stateful model is tied by the unmarshalm cases only; both stateful models are hand transcriptions of the Go machines, tied by the correspondence check",
+    "C17": "codec instances: proved for every history (C17Reuse); object MARSHALLER: a stateful model with the code's structure refines the functional model from every dirty state (C17ObjMarshal, NoClash atlases); object UNMARSHALLER: likewise for every target built from primitives, pointers, slices, arrays, maps, struct maps, untyped slots, transforms, keyed unions and atlas-resolved tags (C17ObjUnmarshalFull / Union; left out: a union member or tagged entry that is a transform over a primitive receive type - tie only); both stateful models are hand transcriptions of the Go machines, tied by the marshalm / unmarshalm cases of the correspondence check",
     "C18": "memory model / scheduler not modelled: non-interference theorem + regenerated SSA write-set + race detector",
     "C13": "completeness proved on `fullTy`; outside it (untagged structs inside untyped slots, transforms receiving untyped forms) tie only",
 }
